@@ -701,6 +701,11 @@ func (e *escaper) escapeText(c context, n *parse.TextNode) context {
 // s, then returns the context after those tokens and the unprocessed suffix.
 func contextAfterText(c context, s []byte) (context, int) {
 	if c.delim == delimNone {
+		if c.state != stateSpecialElementBody {
+			// Only the body of a special element is ended by its end tag: inside the
+			// start tag itself (`<script </script>`) a browser reads attribute names.
+			return transitionFunc[c.state](c, s)
+		}
 		c1, i := tSpecialTagEnd(c, s)
 		if i == 0 {
 			// A special end tag (`</script>`) has been seen and
